@@ -5,14 +5,17 @@ package rib
 func init() {
 	vfRegister("VfC08_flush_q", VfC08_flush_q)
 	vfRegister("VfC08_flush_t", VfC08_flush_t)
+	vfRegister("VfC08_flush_qx", VfC08_flush_qx)
 }
 
 // vfFlushRun: canonical pre-state (groups may carry backup groups: shared, missing or
 // self-referencing ids are all within the symbolic range), then RIB.Flush of a symbolic
 // selection of instances.
-func vfFlushRun(pre vfPreCfg, fixLow, order bool) {
+func vfFlushRun(pre vfPreCfg, fixLow, order bool) { vfFlushRunX(pre, fixLow, false, true, order) }
+
+func vfFlushRunX(pre vfPreCfg, fixLow, splitLow, rich, order bool) {
 	r, ref := vfNewPair(true)
-	g := &vfGen{rich: true, fixLow: fixLow}
+	g := &vfGen{rich: rich, fixLow: fixLow, splitLow: splitLow}
 	if order {
 		vfMapOrder(true)
 	}
@@ -40,7 +43,12 @@ func vfFlushRun(pre vfPreCfg, fixLow, order bool) {
 }
 
 func VfC08_flush_q() {
-	vfFlushRun(vfPreCfg{nNH: 1, nNHG: 1, nTop: 1, members: 1, topKinds: vfTopQ}, true, false)
+	vfFlushRun(vfPreCfg{nNH: 1, nNHG: 1, nTop: 1, members: 1, topKinds: vfTopQ}, false, false)
+}
+
+// flush_qx: a next-hop and a group in each instance, two IPv4 entries in either instance.
+func VfC08_flush_qx() {
+	vfFlushRunX(vfPreCfg{nNH: 2, nNHG: 2, nTop: 2, members: 1, topKinds: []int{vfKV4}}, false, true, false, false)
 }
 
 func VfC08_flush_t() {
